@@ -70,6 +70,7 @@ type gstate struct {
 	regsOut  int
 	regsIn   int
 	refusing bool
+	logons   int // Logons generated so far in this scenario
 }
 
 // num renders an integer the ways FIX peers do and strconv.Atoi accepts: mostly plain, sometimes
@@ -174,6 +175,15 @@ func (g *gstate) logon(kind string) Op {
 	if g.r.Chance(1, 6) {
 		skind = 3
 	}
+	// a peer that comes back may start numbering afresh (its numbers go down), and its next Logon
+	// then often arrives with a gap
+	if g.logons > 0 && g.r.Chance(1, 4) {
+		g.p.seq = g.r.Intn(2)
+	}
+	if g.logons > 1 && g.r.Chance(1, 3) {
+		skind = 3
+	}
+	g.logons++
 	sf, seq := g.seqField(skind)
 	body := "98=" + enc + "\x01108=" + g.num(hb) + "\x01"
 	if kind == "no-enc" {
